@@ -279,7 +279,13 @@ func reflectMap(rv reflect.Value, opt *Options) any {
 		k := it.Key().Interface()
 		var g any
 		vv := it.Value()
-		if !isNil(vv) {
+		switch vv.Kind() {
+		case reflect.Interface, reflect.Ptr:
+			if !vv.IsNil() {
+				g = decompose(vv.Interface(), opt)
+			}
+		default:
+			// a nil slice or map is an empty one here as everywhere else
 			g = decompose(vv.Interface(), opt)
 		}
 		var (
@@ -301,14 +307,6 @@ func reflectArray(rv reflect.Value, opt *Options) any {
 		a[i] = decompose(rv.Index(i).Interface(), opt)
 	}
 	return a
-}
-
-func isNil(rv reflect.Value) bool {
-	switch rv.Kind() {
-	case reflect.Interface, reflect.Map, reflect.Ptr, reflect.Slice:
-		return rv.IsNil()
-	}
-	return false
 }
 
 func condMapSet(m map[string]any, key string, value any, opt *Options) {
